@@ -289,6 +289,12 @@ func (vr *variableResolver) resolve(ctx *ExecutionContext) (*Value, error) {
 			isFunc := false
 			if part.typ == varTypeIdent {
 				funcValue := current.MethodByName(part.s)
+				if funcValue.IsValid() && current.Kind() == reflect.Ptr && current.IsNil() {
+					if _, ok := current.Type().Elem().MethodByName(part.s); ok {
+						// A method with a value receiver can't be called through a nil pointer
+						return AsValue(nil), nil
+					}
+				}
 				if funcValue.IsValid() {
 					current = funcValue
 					isFunc = true
